@@ -53,6 +53,9 @@ def run(P, rep, tier):
     rep.attempt(r6_codec, P, rep, ctx)
     rep.attempt(r7_versionless, P, rep, ctx)
     rep.attempt(r8_group_lookup_key, P, rep, ctx)
+    from .common import r_raw_argument_after_normalisation
+
+    rep.attempt(r_raw_argument_after_normalisation, P, rep, ctx, "C16.R9", {"plugin.interface", "plugins", "plugin.types", "schema.pg"})
     rep.floor("C16.R1", 4)
     rep.floor("C16.R4", 2)
     rep.floor("C16.R5", 5)
@@ -563,6 +566,17 @@ def r6_codec(P, rep, ctx):
             raise AnalysisError(f"C16.R6: regex {nm} not supported by the NFA builder: {e}")
         rep.check(w is None, "C16.R6", T, f"no string of L({nm}) contains the separator {sep!r} (product automaton: {states} states explored, intersection empty)", m.relpath,
                   construct=f"L({nm}) ∩ Σ*{sep}Σ*", message=f"valid {nm} {w!r} contains the separator {sep!r}: from_ep_name cannot split entry point names unambiguously")
+    # every name / version that is valid by the documented grammar still is: the codec is total on the names plugins already
+    # carry ("begins with a letter, ends with a letter or digit, lowercase letters, digits, single _ or - inside; segments
+    # joined by '.'"; version = three dot-separated numbers)
+    DOC = {"QUAL_NAME": r"[a-z][a-z0-9]([_-]?[a-z0-9])*([.][a-z][a-z0-9]([_-]?[a-z0-9])*)*", "SEMVER_STR_REGEX": r"[0-9]+\.[0-9]+\.[0-9]+"}
+    for nm, pat in (("QUAL_NAME", qual), ("SEMVER_STR_REGEX", semver)):
+        try:
+            w = RL.difference_witness(RL.full_language(DOC[nm]), RL.full_language(pat))
+        except RL.UnsupportedRegex as e:
+            raise AnalysisError(f"C16.R6: regex {nm} not supported by the NFA builder: {e}")
+        rep.check(w is None, "C16.R6", T, f"L({nm}) contains every string of the documented grammar (subset construction, difference empty)", m.relpath, construct=f"L(documented {nm}) \\ L({nm})",
+                  message=f"{w!r} is a valid {nm} by the documented grammar but is no longer matched by {nm}: plugins carrying such a name cannot be registered / their entry point names do not convert back")
     # also: a valid name cannot end / a version cannot start such that the separator straddles the boundary ambiguously:
     # L(QUAL_NAME)·sep·L(SEMVER) has a unique split iff no name·sep·ver string has another decomposition
     try:
